@@ -206,11 +206,19 @@ func runCases[T any](r *caseRunner, label string, cases []T, eval func(*T, *tiny
 		c.Cap("stopped after first violating part; skipped: " + label)
 		return false
 	}
-	var acc, rej int64
+	var acc, rej, capped int64
 	var tsm sync.Mutex
 	done := par.For(len(cases), func(i int) {
 		var ts tinyStats
 		got, want, err := eval(&cases[i], &ts, &r.bs)
+		if err == errNodeCap {
+			// not decided for this input: reported as a cap, never as a verdict; the part is given
+			// up after a few of them (each costs millions of search nodes)
+			if atomic.AddInt64(&capped, 1) == 1 {
+				c.Cap(label + ": R1CS search abandoned for some inputs (node cap): those inputs are not decided here")
+			}
+			return
+		}
 		if err != nil {
 			// a gadget of the tree under check that cannot be compiled / panics in Define is a
 			// verdict about that tree (it never happens on the unchanged tree); anything else is ours
@@ -235,7 +243,7 @@ func runCases[T any](r *caseRunner, label string, cases []T, eval func(*T, *tiny
 			raw, _ := json.Marshal(cases[i])
 			c.Violation(label+"|"+string(raw), fmt.Sprintf("%s: implementation %s, reference %s", label, got, want), cases[i])
 		}
-	}, func() bool { return c.Expired() || c.NViolations() >= 5 })
+	}, func() bool { return c.Expired() || c.NViolations() >= 5 || atomic.LoadInt64(&capped) > 40 })
 	r.mu.Lock()
 	r.evals += int64(done)
 	r.accepted += acc
